@@ -42,7 +42,7 @@ func c15Call(name, key string) *callRole {
 // left empty disappears, an iterator yields one child per element of its range, in order, with the iteration
 // variable bound, an error in any processed role fails the load, and the resulting tree is the same for every
 // setting of the three concurrency switches and every interleaving.
-//verif:entry HarnessLoadStructure unwind=48 conform=12 preempt=0 reach=loaded,failed stub=github.com/AliceO2Group/Control/common/utils.TimeTrack
+//verif:entry HarnessLoadStructure unwind=48 conform=12 preempt=0 sleepbound=0 reach=loaded,failed stub=github.com/AliceO2Group/Control/common/utils.TimeTrack
 //verif:thorough HarnessLoadStructure preempt=1 paths=1500000
 func HarnessLoadStructure() {
 	keys := []string{"root", "a", "b", "b1", "b2", "c"}
@@ -57,9 +57,9 @@ func HarnessLoadStructure() {
 			if strings.HasPrefix(v, "{{enabled:") {
 				switch decision[strings.TrimSuffix(strings.TrimPrefix(v, "{{enabled:"), "}}")] {
 				case c15True:
-					field.Set("true")
+					field.Set(" true\n") // with the blanks a YAML block scalar or a padded expression leaves (seed C15-m6)
 				case c15False:
-					field.Set("false")
+					field.Set("false ")
 				default:
 					return errors.New("template error in " + parentPath)
 				}
@@ -176,7 +176,7 @@ func c15Subst(f template.Fields, confSvc template.ConfigurationService, parentPa
 // An iterator nested in an iterated role, its range depending on the outer iteration variable (begin/end form):
 // outer element o in 1..N yields a group g<o> holding the calls w<o>-1 .. w<o>-<o>; every generated role has both
 // iteration variables bound to its own values; the same tree for every setting of the concurrency switches.
-//verif:entry HarnessNestedIterator unwind=64 conform=12 preempt=0 reach=loaded stub=github.com/AliceO2Group/Control/common/utils.TimeTrack,github.com/jinzhu/copier.Copy
+//verif:entry HarnessNestedIterator unwind=64 conform=12 preempt=0 sleepbound=0 reach=loaded stub=github.com/AliceO2Group/Control/common/utils.TimeTrack,github.com/jinzhu/copier.Copy
 func HarnessNestedIterator() {
 	template.VerifHook_Fields_Execute = c15Subst
 	the.VerifHook_ConfSvc = func() configuration.Service { return nil }
@@ -218,5 +218,42 @@ func HarnessNestedIterator() {
 	}
 	vrt.Trace("got", strings.Join(got, ","), "want", strings.Join(want, ","))
 	vrt.Assert(strings.Join(got, ",") == strings.Join(want, ","), "nested-iterator-yields-one-child-per-element-of-its-own-range")
+	vrt.Reach("loaded")
+}
+
+// One iterator over 2..3 elements generating call roles, expanded concurrently or not: the children are exactly
+// w1 .. wN in range order - under EVERY order in which the expansion goroutines run and finish (no pre-emption is
+// needed for that: the parent blocks in Wait and any of them may run first; the reduction is told to respect the
+// pre-emption bound, sleepbound=1, so that none of these orders is dropped - see DESIGN.md 2.4). Small on purpose.
+//verif:entry HarnessIteratorExpansionOrder unwind=64 preempt=0 sleepbound=1 reach=loaded stub=github.com/AliceO2Group/Control/common/utils.TimeTrack,github.com/jinzhu/copier.Copy
+//verif:thorough HarnessIteratorExpansionOrder preempt=1 sleepbound=1
+func HarnessIteratorExpansionOrder() {
+	template.VerifHook_Fields_Execute = c15Subst
+	the.VerifHook_ConfSvc = func() configuration.Service { return nil }
+	viper.Set("concurrentWorkflowTemplateProcessing", false)
+	viper.Set("concurrentWorkflowTemplateIteratorProcessing", vrt.Bool("concurrent.iterator.children"))
+	viper.Set("concurrentIteratorRoleExpansion", vrt.Bool("concurrent.iterator.expansion"))
+	n := vrt.IntRange("elements", 2, 3)
+	it := &iteratorRole{For: &iteratorRangeFor{Begin: "1", End: []string{"0", "1", "2", "3"}[n], Var: "it"}, template: &callTemplate{callRole: *c15Call("w{{ it }}", "w")}}
+	root := &aggregatorRole{c15Base("root", "root"), aggregator{Roles: []Role{it}}}
+	LinkChildrenToParents(root)
+	it.setParent(root)
+
+	err := root.ProcessTemplates(nil, nil, map[string]string{})
+	vrt.Assert(err == nil, "load-succeeds-without-template-errors")
+	var got, want []string
+	for _, c := range root.GetRoles() {
+		got = append(got, c.GetName())
+		v := ""
+		if cv, err := c.ConsolidatedVarStack(); err == nil {
+			v = cv["it"]
+		}
+		vrt.Assert("w"+v == c.GetName(), "iteration-variables-are-bound-in-each-generated-role")
+	}
+	for i := 1; i <= n; i++ {
+		want = append(want, "w"+string(rune('0'+i)))
+	}
+	vrt.Trace("got", strings.Join(got, ","), "want", strings.Join(want, ","))
+	vrt.Assert(strings.Join(got, ",") == strings.Join(want, ","), "iterator-yields-one-child-per-element-in-range-order")
 	vrt.Reach("loaded")
 }
